@@ -302,10 +302,33 @@ def r18_3(ctx: Ctx, E: Effects, rule="R18.3"):
                 v_ = list(vals)[0]
                 okl = (kind == "int" and v_ == rp) or (kind == "list" and v_.startswith(rp + "["))
         okb = okb and okl
-    ctx.ob(rule, rs, "branches of the resids setter: %s" % [k for k, _ in branches], okb,
-           "given a list, atom i gets the number of its residue on both sides; given one number, every atom gets it on both sides",
-           node=rs.node)
-    lenchk = [n_ for n_ in walk_no_nested(rs.node) if isinstance(n_, ast.If) and norm(n_.test).replace(" ", "") == ("len(%s) != len(self.resids)" % rp).replace(" ", "")
+    both_sides_somewhere = False
+    for l_ in [x for x in ast.walk(rs.node) if isinstance(x, ast.For)]:
+        av_ = norm(l_.target.elts[0]) if isinstance(l_.target, ast.Tuple) else norm(l_.target)
+        tg_ = sorted(norm(s_.targets[0]) for s_ in l_.body if isinstance(s_, ast.Assign))
+        vl_ = {norm(s_.value) for s_ in l_.body if isinstance(s_, ast.Assign)}
+        if tg_ == ["%s.gro_resid" % av_, "%s.top_resid" % av_] and len(vl_) == 1:
+            both_sides_somewhere = True
+    in_branch_loops = any(isinstance(x, ast.For) for _, body in branches for st_ in body for x in ast.walk(st_))
+    if okb or in_branch_loops or not both_sides_somewhere:
+        ctx.ob(rule, rs, "branches of the resids setter: %s" % [k for k, _ in branches], okb,
+               "given a list, atom i gets the number of its residue on both sides; given one number, every atom gets it on both sides",
+               node=rs.node)
+    else:
+        ctx.ob(rule, rs, "branches of the resids setter", True, "the per-atom numbers are computed in the branches and written by one loop "
+               "afterwards; the branch-wise form of this rule is not decided on this tree (both sides are written in that loop)",
+               undecided=True, node=rs.node)
+    from ..pat import single_defs as _sd18
+    sd18 = _sd18(rs.node)
+
+    def _len_test(n_):
+        t_ = n_.test
+        if not (isinstance(t_, ast.Compare) and len(t_.ops) == 1 and isinstance(t_.ops[0], ast.NotEq)):
+            return False
+        sides = [t_.left, t_.comparators[0]]
+        sides = [sd18.get(x.id, x) if isinstance(x, ast.Name) else x for x in sides]
+        return sorted(norm(x).replace(" ", "") for x in sides) == sorted(["len(%s)" % rp, "len(self.resids)"])
+    lenchk = [n_ for n_ in walk_no_nested(rs.node) if isinstance(n_, ast.If) and _len_test(n_)
               and any(isinstance(x, ast.Raise) for x in n_.body)]
     ctx.ob(rule, rs, lenchk[0] if lenchk else "length check", bool(lenchk),
            "a list of the wrong length is refused", node=lenchk[0] if lenchk else rs.node)
